@@ -766,15 +766,19 @@ class LoginReactor(PacketReactor):
             # it reaches the outgoing queue
             self.connection.write_packet(encryption_response, force=True)
 
-            # Enable the encryption
+            # Enable the encryption, unless 'disconnect' has been called by
+            # another thread in the meantime and there is nothing to encrypt.
             cipher = encryption.create_AES_cipher(secret)
             encryptor = cipher.encryptor()
             decryptor = cipher.decryptor()
-            self.connection.socket = encryption.EncryptedSocketWrapper(
-                self.connection.socket, encryptor, decryptor)
-            self.connection.file_object = \
-                encryption.EncryptedFileObjectWrapper(
-                    self.connection.file_object, decryptor)
+            with self.connection._write_lock:
+                if self.connection.socket is None:
+                    return
+                self.connection.socket = encryption.EncryptedSocketWrapper(
+                    self.connection.socket, encryptor, decryptor)
+                self.connection.file_object = \
+                    encryption.EncryptedFileObjectWrapper(
+                        self.connection.file_object, decryptor)
 
         elif packet.packet_name == "disconnect":
             # Receiving a disconnect packet in the login state indicates an
